@@ -14,12 +14,15 @@ CONSTANTS MaxOps, Tier
 Fold(ch) == IF ch = 2 THEN <<1>> ELSE IF ch = 6 THEN <<7, 7>> ELSE <<ch>>
 MCDefaultDelim == <<4>>
 Delims == {<<4>>}
-PPool == IF Tier = "quick" THEN {<<1>>, <<2>>, <<3>>} ELSE {<<>>, <<1>>, <<2>>, <<6>>, <<7, 7>>}
+PPool == IF Tier = "quick" THEN {<<1>>, <<2>>, <<6>>, <<7, 7>>} ELSE {<<>>, <<1>>, <<2>>, <<6>>, <<7, 7>>}
 UPool == IF Tier = "quick" THEN {<<1>>, <<2>>, <<1, 3>>} ELSE {<<>>, <<1>>, <<2>>, <<1, 3>>}
 Opt(S) == {{}} \cup {{x} : x \in S}
 ValidPool == {r \in {Rec(p, u, ps, us, NoPat) : p \in PPool, u \in UPool, ps \in Opt(PPool), us \in Opt(UPool)} : ValidRec(r)}
 \* arguments of add_record: no synonyms in the thorough tier to keep the branching finite
-ArgPool == IF Tier = "quick" THEN ValidPool
+ArgPool == IF Tier = "quick"
+           THEN {r \in ValidPool : r.ps = {} /\ r.us = {}}
+                \cup {r \in ValidPool : r.us = {} /\ r.ps # {} /\ r.p = <<1>>}
+                \cup {r \in ValidPool : r.ps = {} /\ r.us # {} /\ r.u = <<1>>}
            ELSE {r \in ValidPool : r.ps = {} \/ r.us = {}}
 Probes == StringsUpTo({1, 2, 3, 4}, 2)
 
